@@ -8,6 +8,74 @@ import numpy as np
 import pandas as pd
 
 
+# ----------------------------------------------------------------------------- crash-proof dataset jobs
+class Recorder:
+    """stands in for the check context inside a forked worker (harness.common.pmap): collects the
+    correspondences and property failures of one dataset; the parent replays them onto the real context"""
+
+    def __init__(self):
+        self.events = []
+
+    def correspondence(self, name, case, model_out, impl_out):
+        self.events.append(["corr", name, case, model_out, impl_out])
+        return model_out == impl_out
+
+    def fail(self, cls, case, detail):
+        self.events.append(["fail", cls, case, detail])
+        return True
+
+
+def replay_events(ctx, events):
+    for e in events:
+        if e[0] == "corr":
+            ctx.correspondence(e[1], e[2], e[3], e[4])
+        else:
+            ctx.fail(e[1], e[2], e[3])
+
+
+_WORKER_PQ = [None]
+
+
+def worker_pq():
+    """one extracted-model process per worker"""
+    from harness import common as C
+    if _WORKER_PQ[0] is None:
+        _WORKER_PQ[0] = C.Pqref()
+    return _WORKER_PQ[0]
+
+
+def run_dataset_jobs(ctx, check_dataset, cases, prefix, replayable, nproc=4, job_timeout=180):
+    """check_dataset(case, root, pq, recorder) for every case in forked workers; a worker that dies (native crash)
+    or hangs is a failing input of the property, not the end of the check. Returns the per-case result dicts."""
+    import shutil
+    from harness import common as C
+    scratch = ctx.scratch
+
+    def job(arg):
+        i, case = arg
+        root = os.path.join(scratch, "%s%d" % (prefix, i))
+        rec = Recorder()
+        try:
+            res = check_dataset(case, root, worker_pq(), rec)
+        finally:
+            shutil.rmtree(root, ignore_errors=True)
+        return {"events": rec.events, "res": {k: v for k, v in res.items() if k in ("trivial", "vias")}}
+
+    _WORKER_PQ[0] = None
+    outs = C.pmap(job, list(enumerate(cases)), nproc=nproc, job_timeout=job_timeout)
+    results = []
+    for case, o in zip(cases, outs):
+        if not isinstance(o, dict) or "__crashed__" in o:
+            msg = (o or {}).get("__crashed__", "no result") if isinstance(o, dict) else "no result"
+            ctx.fail({"component": "process", "stage": "crash-or-hang"}, replayable(case),
+                     "the real code did not survive this dataset: %s %s" % (msg, (o or {}).get("tb", "")[-600:] if isinstance(o, dict) else ""))
+            results.append({})
+            continue
+        replay_events(ctx, o["events"])
+        results.append(o["res"])
+    return results
+
+
 # ----------------------------------------------------------------------------- canonical values
 def canon_float(f):
     f = float(f)
